@@ -257,12 +257,18 @@ class Impl(object):
         elif k == "fire":
             self.clock.fire_next()
         elif k == "close":
+            i0 = len(log)
             try:
                 d = self.client.close()
             except AssertionError:
                 log.append(("raised", 2))
             else:
                 self.closed = True
+                # The property says close() fails ALL pending requests, not in which order: the ClientError firings of
+                # one close() call are put into the model's order (newest request first) before anything is compared.
+                pos = [i for i in range(i0, len(log)) if log[i][0] == "def" and log[i][2] == 4]
+                for i, e in zip(pos, sorted((log[i] for i in pos), key=lambda e: -e[1])):
+                    log[i] = e
                 d.addCallback(lambda _: self.log.append(("closefired",)))
         elif k == "disc":
             self.client.disconnect()
@@ -754,7 +760,10 @@ def monitor(records, which=("C06", "C10")):
                     B("C10_close", "second close(): %r" % outs)
             else:
                 closed = True
-                exp_defs = [(h, 4, None) for h in reversed(pending_before)]
+                exp_defs = None     # which Deferreds fail is checked as a SET (the order is not part of the property)
+                got4 = sorted(o[1] for o in defs if o[2] == 4)
+                if c10 and (got4 != sorted(pending_before) or len(got4) != len(defs)):
+                    B("C10_close", "close(): Deferreds failed %r, pending were %r" % ([(o[1], o[2]) for o in defs], pending_before))
                 want = []
                 if conn:
                     want.append(("lose",))
